@@ -95,6 +95,36 @@ def run(chk):
            'the renaming walk runs over clones obtained from AllRulesOf',
            'Walk(%s, ..) renames objects that do not (only) come from '
            'AllRulesOf/CollectAnnotations' % tgt, fi=v.fi, node=c)
+  # every rule of a predicate that depends on a substituted argument is cloned
+  from sa.absint import Interp, State, Sym, Const
+
+  class Dep(object):
+    key = 'depends-on-an-argument'
+  sel = [x for x in walk_local(v.fi.node) if isinstance(x, ast.ListComp) and
+         any('args_of' in norm(i) for g in x.generators for i in g.ifs)]
+  if not sel:
+    raise AnalysisError('CallFunctor: selection of the rules to clone not recognised')
+  for lc in sel:
+    cond = lc.generators[0].ifs
+    test = cond[0] if len(cond) == 1 else ast.BoolOp(op=ast.And(), values=list(cond))
+
+    def expr(node, st, interp):
+      if isinstance(node, ast.BinOp) and isinstance(node.op, ast.BitAnd) and \
+          'args_of' in norm(node) and 'args' in {n.id for n in ast.walk(node) if isinstance(n, ast.Name)}:
+        return Dep()
+      return NotImplemented
+
+    def truth(val, st):
+      if isinstance(val, Dep):
+        return True
+      return NotImplemented
+    it = Interp(v.fi.node, dict(expr=expr, truth=truth))
+    outcomes = sorted({t for t, st2 in it.cond(test, State())})
+    chk.ob('C04-R1', outcomes == [True], None,
+           'a rule whose predicate depends on a substituted argument is always selected for cloning',
+           'the selection `%s` can reject a predicate that depends on a substituted '
+           'argument: it is not re-created, so the made predicate keeps reading the '
+           'original argument through it' % norm(test, 90), fi=v.fi, node=lc)
   shared = []
   for x in walk_local(v.fi.node):
     if isinstance(x, ast.Attribute) and dotted(x) in ('self.rules_of', 'self.rules') \
